@@ -34,7 +34,7 @@ ANCHORS = [
     "stereomolgraph.experimental:topological_symmetry_number",
 ]
 REQUIRED_ANCHORS = ANCHORS
-REQUIRED = ["pairs_small", "pairs_symmetric", "symmetry_numbers", "reverts", "nonempty_answers", "empty_answers", "group_closure_checked", "labels:default", "labels:colour", "labels:constant", "pairs_regular", "scale_cases"]
+REQUIRED = ["pairs_small", "pairs_symmetric", "symmetry_numbers", "reverts", "nonempty_answers", "empty_answers", "group_closure_checked", "labels:default", "labels:colour", "labels:constant", "pairs_regular", "scale_cases", "pairs_twins"]
 CASE_TIMEOUT = 120
 LABELS = ("default", "colour", "constant", "element", "element+degree")
 _diag = {"on": False, "bad": 0, "updates": 0, "reverts": 0}
@@ -114,6 +114,11 @@ def gen_cases(ctx):
                 continue
             b = sem.pg_relabel(b, gen.random_bijection(rng, b))
         yield {"kind": "small", "family": "regular", "cls": cls, "a": pg_to_json(a), "b": pg_to_json(b), "stereo": False, "change": False, "labels": "default" if i % 8 < 6 else "constant", "bseed": rng.randrange(1 << 30)}
+    # twin atoms carrying equal (unspecified) descriptors over one atom set
+    for i in range(ctx.n(800, 10000)):
+        cls = STEREO[i % 2]
+        a, b = gen.twin_pair(rng, cls)
+        yield {"kind": "small", "family": "twins", "cls": cls, "a": pg_to_json(a), "b": pg_to_json(b), "stereo": True, "change": False, "labels": ("default", "constant", "element", "element+degree")[i % 4], "bseed": rng.randrange(1 << 30)}  # (no colour labels: they tell unspecified from specified parities apart, which the enumeration mode does not)
     # very long chains: search depth = number of atoms
     for k, nsz, cls, seed in gen.scale_specs(ctx, rng, reps=1):
         yield {"kind": "small", "family": "scale", "cls": cls, "scale": nsz, "gseed": seed, "self": k % 2 == 0, "stereo": cls in STEREO, "change": cls == "StereoCondensedReactionGraph", "labels": "default", "bseed": seed // 3}
@@ -240,6 +245,8 @@ def check_case(ctx, case):
     ctx.count("pairs_small" if kind == "small" else "pairs_symmetric")
     if case.get("family") == "regular":
         ctx.count("pairs_regular")
+    if case.get("family") == "twins":
+        ctx.count("pairs_twins")
     ctx.count("nonempty_answers" if ref else "empty_answers")
     ctx.count(f"labels:{lk}")
     cr, cf = _canon(real), _canon(ref)
